@@ -116,6 +116,8 @@ def main():
                 t = a['obs'][0].split()
                 if len(t) > 1 and t[0] == 'r':
                     res['err_classes'][t[1]] = res['err_classes'].get(t[1], 0) + 1
+            if a['obs'] == ['r *']:
+                continue  # recorded op of a golden history: replayed on the model only
             if a['op'] != b['op'] or a['obs'] != b['obs']:
                 bad = k
                 break
